@@ -18,6 +18,7 @@ def run(rep):
     rep.guard(k3, rep, w)
     rep.guard(k4, rep, w)
     rep.guard(k5, rep, w)
+    rep.guard(k6, rep, w)
     import c18
     rep.guard(c18.q6, rep, w)     # the for loop's implicit it.next() is dispatched like a written one (fields of the instance first)
     import c06
@@ -129,6 +130,22 @@ def k2(rep, w):
     from_super = any('methods' in q for i in ins for q in gorg.get((op_place(g.blocks[i]['t']['args'][0]) or {}).get('l'), ()))
     sets_super = any(isinstance(s.get('d', {}).get('p', [None])[-1] if s.get('d', {}).get('p') else None, dict) and s['d']['p'][-1].get('n') == 'superclass'
                      for b in g.blocks for s in b['s'])
+    # ... every one of them: inside the copying loop the only branch is the loop's own "next element or done" (an entry that is
+    # skipped - "statics stay with the class that declares them" - is missing from the subclass's table, and super.new / inherited
+    # static calls look there)
+    filt = []
+    for i in ins:
+        cyc = {b for b in g.reachable_blocks(i) if i in g.reachable_blocks(b)}
+        for b in sorted(cyc):
+            tt = g.blocks[b]['t']
+            if tt['t'] != 'switch':
+                continue
+            qs = gorg.get((op_place(tt['d']) or {}).get('l'), ())
+            if qs and all((q[0][0] == 'call' and q[0][2].endswith('::next')) or '@next' in q for q in qs):
+                continue
+            filt.append(g.loc(tt.get('sp')))
+    r.check(not filt, 'inherit_impl copies every entry of the superclass\'s table', 'inherit_impl skips some of the superclass\'s methods (a condition inside the copying loop, %s): what it '
+            'skips cannot be reached through the subclass (super.new(..), inherited static methods)' % sorted(set(filt)), g.loc())
     r.check(bool(ins) and looped and from_super and sets_super, 'inherit_impl records the superclass and copies all its methods', 'inherit_impl no longer copies the '
             'superclass\'s methods into the class being defined (or does not record the superclass)', g.loc())
     # Inherit is emitted before any Method opcode of the class body
@@ -422,3 +439,41 @@ def k5(rep, w):
             'cap_self: every error-free path loads the receiver and emits %s' % sorted(class_of),
             'the code compiled for `Self` does not end in %s on every path (emits %s): `Self` no longer follows the class the static method was '
             'invoked through (a factory inherited by a subclass builds the base class)' % (sorted(class_of), sorted({opn for (_, _, opn, _) in evs if opn})), cs.loc())
+
+
+def k6(rep, w):
+    """whether `super` is allowed is a fact about the *innermost* enclosing class: classes nest (a class declared in a method body of
+    another), so the compiler has to keep one record per open class and ask the last one. A counter of "classes with a superclass
+    currently open" cannot tell the innermost class from an outer one: `super` in a base-less class nested in a derived class then
+    compiles and binds to the outer class's hidden variable."""
+    r = rep.rule('K6', '`super` is checked against the record of the innermost open class (a stack pushed and popped by class_declaration)', floor=2)
+    sp = w.require_fn(P + 'super_', 'C07')
+    cd = w.require_fn(P + 'class_declaration', 'C07')
+    org = origins(sp)
+    stacks = set()
+    for b in sp.normal_blocks():
+        tt = sp.blocks[b]['t']
+        if tt['t'] != 'switch':
+            continue
+        for q in org.get((op_place(tt['d']) or {}).get('l'), ()):
+            toks = list(q[1:])
+            for i, tk in enumerate(toks):
+                if tk in ('@last', '@last_mut') or (q[0][0] == 'call' and q[0][2].endswith(('::last', '::last_mut'))):
+                    named = [x for x in toks[:i] if not x.startswith(('@', '#', '*'))]
+                    if named:
+                        stacks.add(named[-1])
+    r.check(bool(stacks), 'super_ asks the last record of a per-class stack (%s)' % sorted(stacks),
+            'super_ decides whether a superclass exists without looking at the innermost class\'s own record (no `.last()` of a per-class stack): with nested classes '
+            'the answer is taken from some enclosing class', sp.loc())
+    corg = origins(cd)
+    pushed = popped = False
+    for bi, t in cd.calls():
+        n = strip_generics(callee_name(t) or '')
+        if n in ('std::vec::Vec::push', 'std::vec::Vec::pop') and t['args']:
+            pl = op_place(t['args'][0])
+            fields = {x for q in corg.get(pl['l'], ()) if pl for x in q[1:]}
+            if fields & stacks:
+                pushed |= n.endswith('push')
+                popped |= n.endswith('pop')
+    r.check(bool(stacks) and pushed and popped, 'class_declaration pushes a record when a class opens and pops it when it closes',
+            'class_declaration does not push / pop the per-class stack super_ consults (push %s, pop %s)' % (pushed, popped), cd.loc())
